@@ -501,6 +501,23 @@ func Stable(info *types.Info, e ast.Node) string {
 		if !ok || id.Name == "_" {
 			return true
 		}
+		if o := info.ObjectOf(id); o != nil {
+			// a renamed function or field is written under its reference name
+			if rn := RefName(o); rn != id.Name && rn != "" {
+				switch ov := o.(type) {
+				case *types.Func:
+					saved = append(saved, sv{id, id.Name})
+					id.Name = rn
+					return true
+				case *types.Var:
+					if ov.IsField() {
+						saved = append(saved, sv{id, id.Name})
+						id.Name = rn
+						return true
+					}
+				}
+			}
+		}
 		v, ok := info.ObjectOf(id).(*types.Var)
 		if !ok || v.IsField() || v.Pkg() == nil || v.Parent() == nil || v.Parent() == v.Pkg().Scope() {
 			return true
